@@ -285,6 +285,18 @@ func (ts *TermStore) Eq(a, b *Term) *Term {
 			return ts.tTrue
 		}
 	}
+	if a.Op == OVar && b.Op == OVar && a.Dom != nil && b.Dom != nil {
+		common := false
+		for _, v := range a.Dom {
+			if inDom(b.Dom, v) {
+				common = true
+				break
+			}
+		}
+		if !common {
+			return ts.tFals
+		}
+	}
 	if a.ID > b.ID {
 		a, b = b, a
 	}
